@@ -1,6 +1,81 @@
-import BroodModel.Inv
+/-
+  C16 — Equality between worlds is sound.
+
+  `World.eqWorld` mirrors `world/impl_eq.rs` + `archetypes/impl_eq.rs` + `Archetype::component_eq`
+  + `Slot`/`Location` `PartialEq` (which dereferences both identifier pointers: a handle that does
+  not resolve is `Out.ub`).  Values compare by `Val.eqv` (same component type, same base identity:
+  the `PartialEq` of the harness's component types).
+
+  The theorems hold for all worlds satisfying the invariant, hence (by `run_inv`) for every pair of
+  reachable worlds.  That a clone and a serde round trip compare equal to the original is C10 / C06.
+-/
+import BroodModel.Lemmas.Eq
+
 namespace Brood
-theorem C16_init_inv (n : Nat) (res : List Val) : Inv (World.init n res) := by
-  constructor <;> simp [World.init, Alloc.empty]
+
+/-- Comparing two worlds never reaches a dangling identifier pointer. -/
+theorem C16_no_ub {a b : World} (ha : Inv a) (hb : Inv b) : ∃ r, World.eqWorld a b = .ok r :=
+  eqWorld_ok ha hb
+
+/-- **Reflexive.** -/
+theorem C16_refl {w : World} (hi : Inv w) : World.eqWorld w w = .ok true := eqWorld_refl hi
+
+/-- **Symmetric** (as a Boolean: equal both ways or unequal both ways). -/
+theorem C16_symm {a b : World} (ha : Inv a) (hb : Inv b) : World.eqWorld a b = World.eqWorld b a :=
+  eqWorld_symm ha hb
+
+/-- **Sound**: equal worlds hold the same live identifiers with equivalent component values, the
+same number of entities, and equivalent resources. -/
+theorem C16_sound {a b : World} (ha : Inv a) (hb : Inv b) (h : World.eqWorld a b = .ok true) :
+    a.len = b.len ∧ rowEqv a.res b.res = true ∧ ∀ id, entEqv (a.entity id) (b.entity id) = true :=
+  eqWorld_sound ha hb h
+
+/-- **Any difference is detected**: if some identifier is live in one world only, or maps to
+values that are not equivalent, or the resources differ, or the entity counts differ, the worlds
+compare unequal. -/
+theorem C16_detects {a b : World} (ha : Inv a) (hb : Inv b)
+    (hdiff : (∃ id, entEqv (a.entity id) (b.entity id) = false) ∨ rowEqv a.res b.res = false ∨
+      a.len ≠ b.len) : World.eqWorld a b = .ok false := by
+  obtain ⟨r, hr⟩ := eqWorld_ok ha hb
+  cases r with
+  | false => exact hr
+  | true =>
+    obtain ⟨h1, h2, h3⟩ := eqWorld_sound ha hb hr
+    rcases hdiff with ⟨id, hd⟩ | hd | hd
+    · rw [h3 id] at hd; cases hd
+    · rw [h2] at hd; cases hd
+    · exact absurd h1 hd
+
+/-- The same for every pair of reachable worlds. -/
+theorem C16_reachable (n : Nat) (res res' : List Val) (ops ops' : List Op) {a b : World}
+    (ea : run (World.init n res) ops = .ok a) (eb : run (World.init n res') ops' = .ok b) :
+    World.eqWorld a a = .ok true ∧ World.eqWorld a b = World.eqWorld b a ∧
+    (World.eqWorld a b = .ok true →
+      a.len = b.len ∧ rowEqv a.res b.res = true ∧ ∀ id, entEqv (a.entity id) (b.entity id) = true) := by
+  have ha := run_inv (inv_init n res) ops ea
+  have hb := run_inv (inv_init n res') ops' eb
+  exact ⟨eqWorld_refl ha, eqWorld_symm ha hb, eqWorld_sound ha hb⟩
+
+/-- Non-vacuity: two worlds built by different histories that hold the same map compare equal;
+changing one value makes them unequal. -/
+example :
+    let a := run (World.init 2 []) [.insert [0] [⟨0, 1⟩], .insert [1] [⟨1, 2⟩], .remove ⟨0, 0⟩, .insert [0] [⟨0, 3⟩]]
+    let b := run (World.init 2 []) [.insert [0] [⟨0, 1⟩], .insert [1] [⟨1, 2⟩], .remove ⟨0, 0⟩, .insert [0] [⟨0, 3⟩],
+      .write ⟨1, 0⟩ 1 ⟨1, 2⟩]
+    let c := run (World.init 2 []) [.insert [0] [⟨0, 1⟩], .insert [1] [⟨1, 2⟩], .remove ⟨0, 0⟩, .insert [0] [⟨0, 3⟩],
+      .write ⟨1, 0⟩ 1 ⟨1, 9⟩]
+    (match a, b, c with
+     | .ok a, .ok b, .ok c =>
+       (match World.eqWorld a b, World.eqWorld a c with
+        | .ok r1, .ok r2 => some (r1, r2)
+        | _, _ => none)
+     | _, _, _ => none) = some (true, false) := by decide
+
 end Brood
-#print axioms Brood.C16_init_inv
+
+#print axioms Brood.C16_no_ub
+#print axioms Brood.C16_refl
+#print axioms Brood.C16_symm
+#print axioms Brood.C16_sound
+#print axioms Brood.C16_detects
+#print axioms Brood.C16_reachable
